@@ -22,7 +22,7 @@ def htab_ob(nops, nkeys, timeout):
     S = 2 if nops <= 2 else 4 if nops <= 4 else 8       # largest element array any sequence of nops inserts reaches
     loops = {"HTAB_h_el_do#0": 2 * S + 1, "HTAB_h_el_do#1": S // 2 + 1, "HTAB_h_el_do#2": 2 * S + 4,
              "HTAB_h_el_clear#0": S + 1, "HTAB_h_el_clear#1": 2 * S + 1, "HTAB_h_el_create#0": 3, "HTAB_h_el_create#1": 6,
-             "harness#0": nkeys + 1, "harness#1": nkeys + 1, "harness#2": nops + 1, "harness#3": nkeys + 1,
+             "harness#0": max(nops, nkeys) + 1, "harness#1": max(nops, nkeys) + 1, "harness#2": max(nops, nkeys) + 1, "harness#3": max(nops, nkeys) + 1,
              "h_ledger_live#0": 9, "h_ledger_find#0": 9}
     return Ob("htab.seq%d.keys%d" % (nops, nkeys), "C19/htab.c",
               defs=["H_NOPS=%d" % nops, "H_NKEYS=%d" % nkeys, "H_ELS_CAP=%d" % S, "H_SLOT_MAX=8"],
